@@ -11,7 +11,6 @@ import itertools
 import contextlib
 import numpy as np
 from pmc.refs import mma as R
-from pmc.engine.tol import q, mag
 
 PROPERTY = 'C10'
 RULE = ("lattice: n x objective {sepquad, coupquad, recip, linear} x constraint set {vol, ball, two, inactive_first} "
@@ -29,7 +28,8 @@ ASSUMPTIONS = [
     "original convex problem are verified to 1e-10 and uniqueness (strict complementarity, PD reduced Hessian) holds",
     "requested accuracy of the sub-problem = the epsimin argument handed to subsolv; a primal-dual method that stops "
     "at relaxed residual <= 0.9*eps with eps in (epsimin, 10*epsimin] has true KKT residual <= 19*epsimin, so the "
-    "bound judged is 20*epsimin (the design-stage probe's 10*epsimin is reported as an outcome tag only)",
+    "bound judged is 20*epsimin (the design-stage probe's 10*epsimin is reported as an outcome tag only); in "
+    "addition the residual must be <= 20*epsimin_user*sqrt(m+n) for the epsimin=1e-10 given to minimize_mma",
     "the constant of the objective approximation is not handed to subsolv (it does not influence the sub-problem), "
     "so 'reproduces the value' is judged for the constraints and 'reproduces the gradient' for all responses",
     "bound/move vectors are given as numpy arrays (python lists as per-variable vectors are outside the alphabet)",
@@ -48,6 +48,7 @@ TOLX = 1e-7
 CONV_TOL = 1e-3
 FEAS_TOL = 1e-6
 KKT_FACTOR = 20.0
+EPSIMIN = 1e-10      # handed to minimize_mma explicitly: the accuracy the user requests for the sub-problem
 WORK_LIMIT = 40000   # residual evaluations inside one subsolv call (a normal call needs 50-500)
 
 
@@ -240,7 +241,8 @@ def execute(case):
         with contextlib.redirect_stdout(buf):
             pym.minimize_mma(net, sigs, outs, verbosity=0, maxit=MAXIT, tolx=TOLX, move=spec(move_spec),
                              xmin=spec(xmin_spec), xmax=spec(xmax_spec), mmaversion=case['version'],
-                             asyinit=asyinit, asyincr=asyincr, asydecr=asydecr, albefa=albefa, fn_callback=callback)
+                             asyinit=asyinit, asyincr=asyincr, asydecr=asydecr, albefa=albefa, epsimin=EPSIMIN,
+                             fn_callback=callback)
     except _Truncate as e:
         truncated[0] = str(e).split('\n')[0]
     finally:
@@ -276,8 +278,8 @@ def execute(case):
             got = np.atleast_1d(cbs[k][i]).ravel()
             want = expect[cum[i]:cum[i + 1]]
             chk(got.shape == want.shape and np.array_equal(got, want), 'writeback',
-                {'split': case['split'], 'signal': 'scalar' if sz == 0 else 'array', 'first': k == 0},
-                iteration=k, signal=i, got=got, want=want)
+                {'signal': 'scalar' if sz == 0 else 'array'},
+                iteration=k, signal=i, split=case['split'], got=got, want=want)
             if sz >= 1 and np.ndim(cbs[k][i]) != 1:
                 observed.add('length-1 array signal written back as 0-d value')
             if sz == 0 and np.ndim(cbs[k][i]) != 0:
@@ -295,8 +297,8 @@ def execute(case):
             tolv = 1e-9 * max(np.max(np.abs(xk)), np.max(np.abs(xp))) + 1e-12
             j = int(np.argmax(step - lim))
             chk(bool(np.all(step <= lim + tolv)), 'move_limit',
-                {'move_kind': case['move'], 'bounds_kind': case['bounds'], 'ratio': q(step[j] / lim[j], 2)},
-                iteration=k, step=step, limit=lim)
+                {'move_kind': case['move']}, iteration=k, step=step, limit=lim, worst_ratio=step[j] / lim[j],
+                bounds_kind=case['bounds'])
         # --- what was handed to the sub-problem solver
         arg, ret, res, capped = subs[k]
         low, upp, alfa, beta, P, Q, b = arg['low'], arg['upp'], arg['alfa'], arg['beta'], arg['P'], arg['Q'], arg['b']
@@ -316,14 +318,13 @@ def execute(case):
                 bnd = 1e-9 * np.maximum(gsc, np.abs(dgtrue[i])) + 1e-12
                 j = int(np.argmax(err - bnd))
                 chk(bool(np.all(err <= bnd)), 'approx_gradient',
-                    dict(base_sig, resp='objective' if i == 0 else 'constraint',
-                         ratio=q(gr[j] / dgtrue[i][j], 2) if dgtrue[i][j] != 0 else 'inf'),
-                    iteration=k, response=i, got=gr, want=dgtrue[i])
+                    dict(base_sig, resp='objective' if i == 0 else 'constraint'),
+                    iteration=k, response=i, got=gr, want=dgtrue[i], worst_component=j)
                 if i >= 1:
                     val, vsc = R.approx_value(P[i], Q[i], low, upp, xk)
                     val -= b[i - 1]
                     chk(abs(val - gtrue[i]) <= 1e-9 * max(vsc, abs(b[i - 1]), abs(gtrue[i])) + 1e-12, 'approx_value',
-                        dict(base_sig, mag=mag(val - gtrue[i])), iteration=k, response=i, got=val, want=gtrue[i])
+                        base_sig, iteration=k, response=i, got=val, want=gtrue[i])
         else:
             chk(False, 'design_outside_asymptotes', base_sig, iteration=k, low=low, upp=upp, x=xk)
         # --- the returned point
@@ -337,11 +338,17 @@ def execute(case):
         ratio = res[comp] / arg['epsimin'] if arg['epsimin'] > 0 else float('inf')
         worst_kkt = max(worst_kkt, ratio)
         ksig = {'cause': 'newton_iteration_cap'} if capped else \
-            dict(base_sig, cause='other', component=comp.split('_')[0], mag=mag(ratio))
+            dict(base_sig, cause='other', component=comp.split('_')[0])
         chk(ratio <= KKT_FACTOR, 'subproblem_kkt', ksig, iteration=k, residuals=res, epsimin=arg['epsimin'],
             ratio=ratio, newton_cap_reported=capped, subproblem=arg, returned=ret)
         if capped:
             observed.add('subsolv reported reaching its Newton iteration cap')
+        elif ratio <= KKT_FACTOR:
+            # the accuracy asked of the solver must not be looser than what the user asked of the optimiser
+            # (the implementation scales the user's epsimin by sqrt(m+n); both readings are accepted)
+            ruser = res[comp] / (EPSIMIN * np.sqrt(m + n))
+            chk(ruser <= KKT_FACTOR, 'subproblem_kkt', dict(base_sig, cause='looser_than_user_epsimin'),
+                iteration=k, residuals=res, epsimin_user=EPSIMIN, epsimin_handed_to_subsolv=arg['epsimin'])
 
     # --- per run: convergence on the convex problem
     ref = _reference(case, lo, hi)
@@ -364,7 +371,7 @@ def execute(case):
         dist = float(np.max(np.abs(xf - ref['x']) / dx)) if ok_shape else float('inf')
         gmax = float(np.max(prob.values(xf)[1:])) if ok_shape else float('inf')
         if ref['balanced']:
-            sigc = dict(base_sig, obj=case['obj'], asy=case['asy'])
+            sigc = dict(base_sig, asy=case['asy'])
             chk(dist <= CONV_TOL, 'convergence_distance', sigc, distance=dist, iterations=nit, final=xf,
                 optimum=ref['x'])
             chk(gmax <= FEAS_TOL, 'convergence_feasibility', sigc, max_constraint=gmax, iterations=nit)
